@@ -947,3 +947,344 @@ Example strict_fail_lazy_fail_any_order_scoped_nonvacuous :
 Proof.
   split; [exact ay_perm|]. split; [discriminate|]. split; [exact ay4_file_ok|]. split; [exact ay4_blocks_ok|]. split; [exact ay4_strict|]. split; [exact ay4_lazy|exact ay4_theorem_applies].
 Qed.
+
+(* ================= REAL RECORDED INPUTS: the two capture-index spaces (audit finding G1; Model/IdxBridge.v, Proofs/Idx*.v) =================
+   The harness gives the strict interpreter the per-stanza matches with the capture indices of each STANZA query (`ri_smatches`) and the lazy interpreter
+   the matches of the merged query with the capture indices of the FILE query (`ri_lmatches`); the two index spaces differ as soon as a later stanza
+   introduces a capture name.  The fragment predicates above demand `nodes_for_capture m stanza_idx = nodes_for_capture m file_idx` on ONE match m and the
+   run_one theorems demand `Permutation (lmatches_of (ri_smatches r)) (ri_lmatches r)`: both are false of real multi-stanza cases.  Bridge:
+   * `normalize_file fl` (executable) rewrites every stanza index to the file index; Model/Strict.v reads only stanza indices, Model/Lazy.v only file indices:
+     `strict_reindex` — the strict run of fl on stanza-indexed matches sms IS the strict run of `normalize_file fl` on file-indexed matches sms' whenever
+     `idx_rel fl (f_stanzas fl) sms sms'` (stanza by stanza, match by match, both select the same nodes for every capture expression of the stanza at any depth,
+     of the shorthand bodies, and for the full-match capture: `match_agree`); `lazy_reindex` — the lazy run of fl and of `normalize_file fl` on the same
+     matches coincide, unconditionally.  Equalities of outcomes: same error value, same final state, same poll trace; every config and budget.
+   * `idx_agree fl sms lms` (A1–A3 of C03 on the recorded data, decided per case by `idx_agreeb`): every block of lms is tagged with a stanza of fl and
+     sms is `idx_rel`-related to `regroup n lms`, the merged-query matches sorted back by stanza; `idx_agree_regroup_perm`: that regrouping is a permutation of lms.
+   * the `.._real_partial` theorems: the whole-run theorems with the fragment predicates stated on `normalize_file fl` and the FILE-indexed matches (where the
+     index equation of `fexpr` is trivially true), `idx_rel`/`idx_agree` instead of one match carrying both index spaces, and the runs of the ORIGINAL file on
+     the original inputs in hypotheses and conclusions.  The run_one forms speak of the record the harness emits, unchanged.
+   Non-vacuity on REAL recorded cases (Proofs/IdxRealExample.v): strict_lazy_real_cases_nonvacuous below. *)
+From TSG Require Import Model.IdxBridge Proofs.IdxStrict Proofs.IdxLazy Proofs.IdxBridge Proofs.IdxReal Proofs.IdxRealExample.
+
+Theorem strict_reindex : forall {rx : Type} t fl cfg supplied budget (regexes : list rx) find call fuel sms sms' g0,
+  idx_rel fl (f_stanzas fl) sms sms' ->
+  run_strict t fl cfg supplied budget regexes find call fuel sms g0 = run_strict t (normalize_file fl) cfg supplied budget regexes find call fuel sms' g0.
+Proof. exact @run_strict_reindex. Qed.
+Theorem lazy_reindex : forall {rx : Type} t fl cfg supplied budget (regexes : list rx) find call fuel lms g0,
+  run_lazy t fl cfg supplied budget regexes find call fuel lms g0 = run_lazy t (normalize_file fl) cfg supplied budget regexes find call fuel lms g0.
+Proof. exact @run_lazy_reindex. Qed.
+(* the per-case check decides the relation; what the relation says *)
+Theorem idx_agreeb_decides : forall fl sms lms, idx_agreeb fl sms lms = true <-> idx_agree fl sms lms.
+Proof. exact idx_agreeb_spec. Qed.
+Theorem idx_agree_spec : forall fl sms lms, idx_agree fl sms lms <->
+  Forall (fun pm : N * qmatch => fst pm < N.of_nat (length (f_stanzas fl))) lms /\ idx_rel fl (f_stanzas fl) sms (regroup (length (f_stanzas fl)) lms).
+Proof. intros. reflexivity. Qed.
+Theorem match_agree_spec : forall fl st ms ml, match_agree fl st ms ml <->
+  forall c, In c (stanza_caps fl st) -> nodes_for_capture ms (snd c) = nodes_for_capture ml (fst c).
+Proof. intros. reflexivity. Qed.
+Theorem idx_agree_regroup_perm : forall fl sms lms, idx_agree fl sms lms -> Permutation (lmatches_of (regroup (length (f_stanzas fl)) lms)) lms.
+Proof. exact idx_agree_perm. Qed.
+(* in the normalized file every capture expression (statements at any depth, shorthand bodies) and the full-match capture of every stanza has
+   file index = stanza index: the index equation of `fexpr` is `x = x` there *)
+Theorem normalize_file_indices_coincide : forall fl st, In st (f_stanzas (normalize_file fl)) ->
+  Forall (fun c : N * N => fst c = snd c) (stanza_caps (normalize_file fl) st).
+Proof. exact normalize_file_caps_coincide. Qed.
+(* the harness driver on a recorded case = the driver on its normalization (both index spaces = file indices), in both modes *)
+Theorem run_one_normalize : forall t cfg budget r b g0, idx_agree (ri_file r) (ri_smatches r) (ri_lmatches r) ->
+  run_one t cfg budget (with_lazy r b) g0 = run_one t cfg budget (with_lazy (normalize_run r) b) g0.
+Proof. exact run_one_reindex. Qed.
+
+(* ANY ORDER, real inputs: sms = recorded strict matches (stanza indices), lms = recorded merged-query blocks (file indices), sms' = file-indexed matches per stanza
+   in strict order (for a recorded case: regroup n lms) *)
+Theorem strict_lazy_iso_any_order_real_partial :
+  forall (rx : Type) t fl supplied (regexes : list rx) find call (okfn : ident -> Prop),
+  (forall f, okfn f -> call_ok call f) ->
+  forall g0 : graph, gclosed (N.of_nat (length g0)) g0 ->
+  (forall glob, check_globals (f_globals fl) (globals_nested supplied) = Ok glob ->
+     forall name v, globals_get glob name = Some v -> vall (fun i => i < N.of_nat (length g0)) v) ->
+  forall fuel sms sms' s p (lms : list (N * qmatch)),
+  idx_rel fl (f_stanzas fl) sms sms' ->
+  file_ok okfn (normalize_file fl) (f_stanzas (normalize_file fl)) sms' ->
+  run_strict t fl config0 supplied None regexes find call fuel sms g0 = Ok (s, p) ->
+  Permutation (lmatches_of sms') lms ->
+  exists r r', (forall i, r' (r i) = i) /\ (forall i, r (r' i) = i) /\ (forall i, i < N.of_nat (length g0) -> r i = i) /\
+    exists lfuel0, forall lfuel, (lfuel0 <= lfuel)%nat -> exists ls pl,
+      run_lazy t fl config0 supplied None regexes find call lfuel lms g0 = Ok (ls, pl) /\ graph_iso r (s_graph s) (l_graph ls).
+Proof. exact @strict_lazy_iso_any_order_real_lemma. Qed.
+Theorem strict_lazy_iso_any_order_every_fuel_real_partial :
+  forall (rx : Type) t fl supplied (regexes : list rx) find call (okfn : ident -> Prop),
+  (forall f, okfn f -> call_ok call f) ->
+  forall g0 : graph, gclosed (N.of_nat (length g0)) g0 ->
+  (forall glob, check_globals (f_globals fl) (globals_nested supplied) = Ok glob ->
+     forall name v, globals_get glob name = Some v -> vall (fun i => i < N.of_nat (length g0)) v) ->
+  forall fuel sms sms' s p (lms : list (N * qmatch)),
+  idx_rel fl (f_stanzas fl) sms sms' ->
+  file_ok okfn (normalize_file fl) (f_stanzas (normalize_file fl)) sms' ->
+  run_strict t fl config0 supplied None regexes find call fuel sms g0 = Ok (s, p) ->
+  Permutation (lmatches_of sms') lms ->
+  exists r r', (forall i, r' (r i) = i) /\ (forall i, r (r' i) = i) /\ (forall i, i < N.of_nat (length g0) -> r i = i) /\
+    forall lfuel, match run_lazy t fl config0 supplied None regexes find call lfuel lms g0 with
+                  | Ok (ls, _) => graph_iso r (s_graph s) (l_graph ls)
+                  | OutOfFuel => True
+                  | Err _ | Panic _ => False
+                  end.
+Proof. exact @strict_lazy_iso_any_order_every_fuel_real_lemma. Qed.
+Theorem strict_lazy_iso_any_order_scoped_real_partial :
+  forall (rx : Type) t fl supplied (regexes : list rx) find call (okfn : ident -> Prop),
+  (forall f, okfn f -> call_ok call f) ->
+  forall g0 : graph, gclosed (N.of_nat (length g0)) g0 ->
+  (forall glob, check_globals (f_globals fl) (globals_nested supplied) = Ok glob ->
+     forall name v, globals_get glob name = Some v -> vall (fun i => i < N.of_nat (length g0)) v) ->
+  forall (purev : ident -> bool) fuel sms sms' s p (lms : list (N * qmatch)),
+  idx_rel fl (f_stanzas fl) sms sms' ->
+  file_ok2 okfn purev (normalize_file fl) (f_stanzas (normalize_file fl)) sms' ->
+  Forall (pm_ok2 (normalize_file fl) okfn) lms ->
+  run_strict t fl config0 supplied None regexes find call fuel sms g0 = Ok (s, p) ->
+  inh_antichain t fl (s_scoped s) ->
+  Permutation (lmatches_of sms') lms ->
+  exists r r', (forall i, r' (r i) = i) /\ (forall i, r (r' i) = i) /\ (forall i, i < N.of_nat (length g0) -> r i = i) /\
+    exists lfuel0, forall lfuel, (lfuel0 <= lfuel)%nat -> exists ls pl,
+      run_lazy t fl config0 supplied None regexes find call lfuel lms g0 = Ok (ls, pl) /\ graph_iso r (s_graph s) (l_graph ls).
+Proof. exact @strict_lazy_iso_any_order_scoped_real_lemma. Qed.
+Theorem strict_lazy_iso_any_order_scoped_every_fuel_real_partial :
+  forall (rx : Type) t fl supplied (regexes : list rx) find call (okfn : ident -> Prop),
+  (forall f, okfn f -> call_ok call f) ->
+  forall g0 : graph, gclosed (N.of_nat (length g0)) g0 ->
+  (forall glob, check_globals (f_globals fl) (globals_nested supplied) = Ok glob ->
+     forall name v, globals_get glob name = Some v -> vall (fun i => i < N.of_nat (length g0)) v) ->
+  forall (purev : ident -> bool) fuel sms sms' s p (lms : list (N * qmatch)),
+  idx_rel fl (f_stanzas fl) sms sms' ->
+  file_ok2 okfn purev (normalize_file fl) (f_stanzas (normalize_file fl)) sms' ->
+  Forall (pm_ok2 (normalize_file fl) okfn) lms ->
+  run_strict t fl config0 supplied None regexes find call fuel sms g0 = Ok (s, p) ->
+  inh_antichain t fl (s_scoped s) ->
+  Permutation (lmatches_of sms') lms ->
+  exists r r', (forall i, r' (r i) = i) /\ (forall i, r (r' i) = i) /\ (forall i, i < N.of_nat (length g0) -> r i = i) /\
+    forall lfuel, match run_lazy t fl config0 supplied None regexes find call lfuel lms g0 with
+                  | Ok (ls, _) => graph_iso r (s_graph s) (l_graph ls)
+                  | OutOfFuel => True
+                  | Err _ | Panic _ => False
+                  end.
+Proof. exact @strict_lazy_iso_any_order_scoped_every_fuel_real_lemma. Qed.
+(* failure direction, real inputs *)
+Theorem strict_fail_lazy_fail_any_order_real_partial :
+  forall (rx : Type) t fl supplied (regexes : list rx) find call (okfn : ident -> Prop),
+  (forall f, okfn f -> call_ok call f) ->
+  forall g0 : graph, gclosed (N.of_nat (length g0)) g0 ->
+  (forall glob, check_globals (f_globals fl) (globals_nested supplied) = Ok glob ->
+     forall name v, globals_get glob name = Some v -> vall (fun i => i < N.of_nat (length g0)) v) ->
+  forall fuel sms sms' e (lms : list (N * qmatch)),
+  idx_rel fl (f_stanzas fl) sms sms' ->
+  call_graph_ext call ->
+  file_ok okfn (normalize_file fl) (f_stanzas (normalize_file fl)) sms' ->
+  run_strict t fl config0 supplied None regexes find call fuel sms g0 = Err e ->
+  order_independent_error e ->
+  Permutation (lmatches_of sms') lms ->
+  forall lfuel,
+    match run_lazy t fl config0 supplied None regexes find call lfuel lms g0 with
+    | Ok _ => False
+    | Err _ | Panic _ | OutOfFuel => True
+    end.
+Proof. exact @strict_fail_lazy_fail_any_order_real_lemma. Qed.
+Theorem strict_fail_lazy_err_any_order_real_partial :
+  forall (rx : Type) t fl supplied (regexes : list rx) find call (okfn : ident -> Prop),
+  (forall f, okfn f -> call_ok call f) ->
+  forall g0 : graph, gclosed (N.of_nat (length g0)) g0 ->
+  (forall glob, check_globals (f_globals fl) (globals_nested supplied) = Ok glob ->
+     forall name v, globals_get glob name = Some v -> vall (fun i => i < N.of_nat (length g0)) v) ->
+  forall (sok : N -> Prop) fuel sms sms' e (lms : list (N * qmatch)),
+  idx_rel fl (f_stanzas fl) sms sms' ->
+  call_graph_ext call ->
+  file_ok okfn (normalize_file fl) (f_stanzas (normalize_file fl)) sms' ->
+  WellFormedFile regexes (normalize_file fl) -> GoodMatchesLazy sok (normalize_file fl) lms -> GoodGlobals sok g0 supplied -> GoodCall sok call ->
+  run_strict t fl config0 supplied None regexes find call fuel sms g0 = Err e ->
+  order_independent_error e ->
+  Permutation (lmatches_of sms') lms ->
+  forall lfuel,
+    match run_lazy t fl config0 supplied None regexes find call lfuel lms g0 with
+    | Err _ | OutOfFuel => True
+    | Ok _ | Panic _ => False
+    end.
+Proof. exact @strict_fail_lazy_err_any_order_real_lemma. Qed.
+Theorem strict_fail_lazy_fail_any_order_scoped_real_partial :
+  forall (rx : Type) t fl supplied (regexes : list rx) find call (okfn : ident -> Prop),
+  (forall f, okfn f -> call_ok call f) ->
+  forall g0 : graph, gclosed (N.of_nat (length g0)) g0 ->
+  (forall glob, check_globals (f_globals fl) (globals_nested supplied) = Ok glob ->
+     forall name v, globals_get glob name = Some v -> vall (fun i => i < N.of_nat (length g0)) v) ->
+  forall (purev : ident -> bool) fuel sms sms' e (lms : list (N * qmatch)),
+  idx_rel fl (f_stanzas fl) sms sms' ->
+  call_graph_ext call ->
+  file_ok2 okfn purev (normalize_file fl) (f_stanzas (normalize_file fl)) sms' -> inh_static t (normalize_file fl) sms' ->
+  Forall (pm_ok2 (normalize_file fl) okfn) lms ->
+  run_strict t fl config0 supplied None regexes find call fuel sms g0 = Err e ->
+  order_independent_error2 e ->
+  Permutation (lmatches_of sms') lms ->
+  forall lfuel,
+    match run_lazy t fl config0 supplied None regexes find call lfuel lms g0 with
+    | Ok _ => False
+    | Err _ | Panic _ | OutOfFuel => True
+    end.
+Proof. exact @strict_fail_lazy_fail_any_order_scoped_real_lemma. Qed.
+Theorem strict_fail_lazy_fail_any_order_scoped_thunks_real_partial :
+  forall (rx : Type) t fl supplied (regexes : list rx) find call (okfn : ident -> Prop),
+  (forall f, okfn f -> call_ok call f) ->
+  forall g0 : graph, gclosed (N.of_nat (length g0)) g0 ->
+  (forall glob, check_globals (f_globals fl) (globals_nested supplied) = Ok glob ->
+     forall name v, globals_get glob name = Some v -> vall (fun i => i < N.of_nat (length g0)) v) ->
+  forall (tnt purev : ident -> bool) fuel sms sms' e (lms : list (N * qmatch)),
+  idx_rel fl (f_stanzas fl) sms sms' ->
+  call_graph_ext call ->
+  file_ok2 okfn purev (normalize_file fl) (f_stanzas (normalize_file fl)) sms' -> inh_static t (normalize_file fl) sms' ->
+  Forall (pm_ok3 (normalize_file fl) okfn tnt) lms ->
+  run_strict t fl config0 supplied None regexes find call fuel sms g0 = Err e ->
+  order_independent_error2 e ->
+  Permutation (lmatches_of sms') lms ->
+  forall lfuel,
+    match run_lazy t fl config0 supplied None regexes find call lfuel lms g0 with
+    | Ok _ => False
+    | Err _ | Panic _ | OutOfFuel => True
+    end.
+Proof. exact @strict_fail_lazy_fail_any_order_scoped_thunks_real_lemma. Qed.
+Theorem strict_fail_lazy_err_any_order_scoped_real_partial :
+  forall (rx : Type) t fl supplied (regexes : list rx) find call (okfn : ident -> Prop),
+  (forall f, okfn f -> call_ok call f) ->
+  forall g0 : graph, gclosed (N.of_nat (length g0)) g0 ->
+  (forall glob, check_globals (f_globals fl) (globals_nested supplied) = Ok glob ->
+     forall name v, globals_get glob name = Some v -> vall (fun i => i < N.of_nat (length g0)) v) ->
+  forall (sok : N -> Prop) (purev : ident -> bool) fuel sms sms' e (lms : list (N * qmatch)),
+  idx_rel fl (f_stanzas fl) sms sms' ->
+  call_graph_ext call ->
+  file_ok2 okfn purev (normalize_file fl) (f_stanzas (normalize_file fl)) sms' -> inh_static t (normalize_file fl) sms' ->
+  Forall (pm_ok2 (normalize_file fl) okfn) lms ->
+  WellFormedFile regexes (normalize_file fl) -> GoodMatchesLazy sok (normalize_file fl) lms -> GoodGlobals sok g0 supplied -> GoodCall sok call ->
+  run_strict t fl config0 supplied None regexes find call fuel sms g0 = Err e ->
+  order_independent_error2 e ->
+  Permutation (lmatches_of sms') lms ->
+  forall lfuel,
+    match run_lazy t fl config0 supplied None regexes find call lfuel lms g0 with
+    | Err _ | OutOfFuel => True
+    | Ok _ | Panic _ => False
+    end.
+Proof. exact @strict_fail_lazy_err_any_order_scoped_real_lemma. Qed.
+
+(* THE DRIVER OF THE CORRESPONDENCE HARNESS ON THE RECORD IT EMITS: `idx_agree` (decided by `run_idx_agreeb r`) replaces the Permutation hypothesis; the fragment
+   predicates are about the normalized file and the merged-query matches (`real_smatches r` = these matches regrouped by stanza) *)
+Theorem strict_lazy_iso_run_one_real_partial :
+  forall t (r : run_in) (okfn : ident -> Prop) (g0 : graph),
+  (forall f, okfn f -> call_ok (the_call t (ri_tbl r)) f) ->
+  gclosed (N.of_nat (length g0)) g0 ->
+  (forall glob, check_globals (f_globals (ri_file r)) (globals_nested (ri_supplied r)) = Ok glob ->
+     forall name v, globals_get glob name = Some v -> vall (fun i => i < N.of_nat (length g0)) v) ->
+  idx_agree (ri_file r) (ri_smatches r) (ri_lmatches r) ->
+  forall g p,
+  file_ok okfn (normalize_file (ri_file r)) (f_stanzas (normalize_file (ri_file r))) (real_smatches r) ->
+  run_one t config0 None (with_lazy r false) g0 = Ok (g, p) ->
+  exists rn rn', (forall i, rn' (rn i) = i) /\ (forall i, rn (rn' i) = i) /\ (forall i, i < N.of_nat (length g0) -> rn i = i) /\
+    match run_one t config0 None (with_lazy r true) g0 with
+    | Ok (g', _) => graph_iso rn g g'
+    | OutOfFuel => True
+    | Err _ | Panic _ => False
+    end.
+Proof. exact strict_lazy_iso_run_one_real_lemma. Qed.
+Theorem strict_lazy_iso_run_one_scoped_real_partial :
+  forall t (r : run_in) (okfn : ident -> Prop) (g0 : graph),
+  (forall f, okfn f -> call_ok (the_call t (ri_tbl r)) f) ->
+  gclosed (N.of_nat (length g0)) g0 ->
+  (forall glob, check_globals (f_globals (ri_file r)) (globals_nested (ri_supplied r)) = Ok glob ->
+     forall name v, globals_get glob name = Some v -> vall (fun i => i < N.of_nat (length g0)) v) ->
+  idx_agree (ri_file r) (ri_smatches r) (ri_lmatches r) ->
+  forall (purev : ident -> bool) g p,
+  file_ok2 okfn purev (normalize_file (ri_file r)) (f_stanzas (normalize_file (ri_file r))) (real_smatches r) ->
+  Forall (pm_ok2 (normalize_file (ri_file r)) okfn) (ri_lmatches r) ->
+  (forall s p', run_strict t (ri_file r) config0 (ri_supplied r) None (ri_rxs r) rx_captures (the_call t (ri_tbl r)) default_fuel (ri_smatches r) g0 = Ok (s, p') ->
+                inh_antichain t (ri_file r) (s_scoped s)) ->
+  run_one t config0 None (with_lazy r false) g0 = Ok (g, p) ->
+  exists rn rn', (forall i, rn' (rn i) = i) /\ (forall i, rn (rn' i) = i) /\ (forall i, i < N.of_nat (length g0) -> rn i = i) /\
+    match run_one t config0 None (with_lazy r true) g0 with
+    | Ok (g', _) => graph_iso rn g g'
+    | OutOfFuel => True
+    | Err _ | Panic _ => False
+    end.
+Proof. exact strict_lazy_iso_run_one_scoped_real_lemma. Qed.
+Theorem strict_fail_lazy_fail_run_one_real_partial :
+  forall t (r : run_in) (okfn : ident -> Prop) (g0 : graph),
+  (forall f, okfn f -> call_ok (the_call t (ri_tbl r)) f) ->
+  gclosed (N.of_nat (length g0)) g0 ->
+  (forall glob, check_globals (f_globals (ri_file r)) (globals_nested (ri_supplied r)) = Ok glob ->
+     forall name v, globals_get glob name = Some v -> vall (fun i => i < N.of_nat (length g0)) v) ->
+  idx_agree (ri_file r) (ri_smatches r) (ri_lmatches r) ->
+  forall e,
+  call_graph_ext (the_call t (ri_tbl r)) ->
+  file_ok okfn (normalize_file (ri_file r)) (f_stanzas (normalize_file (ri_file r))) (real_smatches r) ->
+  run_one t config0 None (with_lazy r false) g0 = Err e ->
+  order_independent_error e ->
+  match run_one t config0 None (with_lazy r true) g0 with
+  | Ok _ => False
+  | Err _ | Panic _ | OutOfFuel => True
+  end.
+Proof. exact strict_fail_lazy_fail_run_one_real_lemma. Qed.
+Theorem strict_fail_lazy_fail_run_one_scoped_real_partial :
+  forall t (r : run_in) (okfn : ident -> Prop) (g0 : graph),
+  (forall f, okfn f -> call_ok (the_call t (ri_tbl r)) f) ->
+  gclosed (N.of_nat (length g0)) g0 ->
+  (forall glob, check_globals (f_globals (ri_file r)) (globals_nested (ri_supplied r)) = Ok glob ->
+     forall name v, globals_get glob name = Some v -> vall (fun i => i < N.of_nat (length g0)) v) ->
+  idx_agree (ri_file r) (ri_smatches r) (ri_lmatches r) ->
+  forall (purev : ident -> bool) e,
+  call_graph_ext (the_call t (ri_tbl r)) ->
+  file_ok2 okfn purev (normalize_file (ri_file r)) (f_stanzas (normalize_file (ri_file r))) (real_smatches r) ->
+  inh_static t (normalize_file (ri_file r)) (real_smatches r) ->
+  Forall (pm_ok2 (normalize_file (ri_file r)) okfn) (ri_lmatches r) ->
+  run_one t config0 None (with_lazy r false) g0 = Err e ->
+  order_independent_error2 e ->
+  match run_one t config0 None (with_lazy r true) g0 with
+  | Ok _ => False
+  | Err _ | Panic _ | OutOfFuel => True
+  end.
+Proof. exact strict_fail_lazy_fail_run_one_scoped_real_lemma. Qed.
+
+(* NON-VACUITY ON REAL RECORDED CASES (Proofs/IdxRealExample.v: records copied verbatim from the case files of the check runs).
+   r16 (C03 stream, four stanzas, no scoped variable; the audit proved the Permutation hypothesis and `file_ok` of the old theorems FALSE of it) and
+   r560 (C04 stream, three stanzas, scoped variables with a nested read `@n.owner.k`, calls of source-text / start-row; `std_okfn` = every stdlib function except
+   node, format, join): the per-case check holds, the old Permutation hypothesis fails, the fragment predicates hold of the normalized file with the merged-query
+   matches, and the run_one theorems yield an isomorphism between the two RECORDED runs (strict on ri_smatches, lazy on ri_lmatches). *)
+Example strict_lazy_real_cases_nonvacuous :
+  (run_idx_agreeb r16_run = true /\ lmatches_of (ri_smatches r16_run) <> lmatches_of (real_smatches r16_run) /\
+   file_ok nofn (normalize_file (ri_file r16_run)) (f_stanzas (normalize_file (ri_file r16_run))) (real_smatches r16_run) /\
+   exists g p g' p', run_one r16_tree config0 None (with_lazy r16_run false) [] = Ok (g, p) /\ run_one r16_tree config0 None (with_lazy r16_run true) [] = Ok (g', p') /\
+     exists rn rn', (forall i, rn' (rn i) = i) /\ (forall i, rn (rn' i) = i) /\ graph_iso rn g g') /\
+  (run_idx_agreeb r560_run = true /\ lmatches_of (ri_smatches r560_run) <> lmatches_of (real_smatches r560_run) /\
+   (forall f, std_okfn f -> call_ok (the_call r560_tree (ri_tbl r560_run)) f) /\
+   file_ok2 std_okfn (fun _ => false) (normalize_file (ri_file r560_run)) (f_stanzas (normalize_file (ri_file r560_run))) (real_smatches r560_run) /\
+   Forall (pm_ok2 (normalize_file (ri_file r560_run)) std_okfn) (ri_lmatches r560_run) /\
+   exists g p g' p', run_one r560_tree config0 None (with_lazy r560_run false) [] = Ok (g, p) /\ run_one r560_tree config0 None (with_lazy r560_run true) [] = Ok (g', p') /\
+     exists rn rn', (forall i, rn' (rn i) = i) /\ (forall i, rn (rn' i) = i) /\ graph_iso rn g g').
+Proof.
+  split.
+  - split; [exact r16_idx_b|]. split; [vm_compute; discriminate|]. split; [exact r16_file_ok|exact r16_theorem_applies].
+  - split; [exact r560_idx_b|]. split; [vm_compute; discriminate|]. split; [apply std_okfn_ok|]. split; [exact r560_file_ok|]. split; [exact r560_blocks_ok|exact r560_theorem_applies].
+Qed.
+(* ... and the failure direction: r751 (C20 stream, four stanzas, globals, a shorthand, scans, comprehensions, stdlib calls; both recorded runs fail with DuplicateAttribute):
+   strict_fail_lazy_fail_run_one_real_partial applies to the record as emitted and excludes lazy success *)
+Example strict_fail_lazy_fail_real_case_nonvacuous :
+  run_idx_agreeb r751_run = true /\ lmatches_of (ri_smatches r751_run) <> lmatches_of (real_smatches r751_run) /\
+  call_graph_ext (the_call r751_tree (ri_tbl r751_run)) /\
+  file_ok std_okfn (normalize_file (ri_file r751_run)) (f_stanzas (normalize_file (ri_file r751_run))) (real_smatches r751_run) /\
+  (exists e, run_one r751_tree config0 None (with_lazy r751_run false) [] = Err e /\ root_cause e = EDuplicateAttribute /\ order_independent_error e) /\
+  (exists e, run_one r751_tree config0 None (with_lazy r751_run true) [] = Err e /\ root_cause e = EDuplicateAttribute) /\
+  match run_one r751_tree config0 None (with_lazy r751_run true) [] with Ok _ => False | Err _ | Panic _ | OutOfFuel => True end.
+Proof.
+  split; [exact r751_idx_b|]. split; [vm_compute; discriminate|]. split; [apply stdlib_call_graph_ext|]. split; [exact r751_file_ok|]. split; [exact r751_strict|].
+  split; [exact r751_lazy|exact r751_theorem_applies].
+Qed.
+
+(* the purity demands of fragment v2 derived from the checker, on the normalized file: `file_eok` and `pv_file` (Model/Locality.v) do not look at capture
+   indices (Proofs/IdxChecked.v), so for a file the checker accepted the weakened predicate `file_ok2_ns` suffices in the `.._scoped_real_partial` theorems *)
+From TSG Require Import Proofs.IdxChecked.
+Theorem locality_ignores_capture_indices : forall purev fl, file_eok (normalize_file fl) = file_eok fl /\ pv_file purev (normalize_file fl) = pv_file purev fl.
+Proof. intros purev fl. split; [apply file_eok_norm|apply pv_file_norm]. Qed.
+Theorem checked_file_in_fragment2_real : forall q f fl okfn purev ms,
+  check_file q f = CkOk fl -> pv_file purev fl = true ->
+  file_ok2_ns okfn purev (normalize_file fl) (f_stanzas (normalize_file fl)) ms -> file_ok2 okfn purev (normalize_file fl) (f_stanzas (normalize_file fl)) ms.
+Proof. exact checked_file_ok2_real. Qed.
